@@ -77,7 +77,7 @@ def props? : Sexp → Option (List (List UInt8 × Val))
   | _ => none
 
 def propsKindOk (n : Nat) : Sexp → Bool
-  | .atom "slice" | .atom "erased" | .atom "with" => true
+  | .atom "slice" | .atom "erased" | .atom "with" | .atom "btree" => true
   | .list [.atom "and", k] => match k.nat? with | some k => k ≤ n | none => false
   | _ => false
 
